@@ -72,6 +72,11 @@ var stdInit = map[string]bool{
 // InitAllowed decides whether a package's init function is interpreted.
 func (e *Engine) InitAllowed(p *ssa.Package) bool {
 	path := p.Pkg.Path()
+	if strings.HasSuffix(path, "/protobuf") {
+		// generated protobuf code: its init registers descriptors through reflection;
+		// the protobuf runtime is stubbed (C19)
+		return false
+	}
 	if strings.HasPrefix(path, e.Cfg.ModulePath) || strings.HasPrefix(path, "verifh") {
 		return true
 	}
@@ -82,6 +87,11 @@ func (e *Engine) InitAllowed(p *ssa.Package) bool {
 func (e *Engine) presetGlobal(w *Worker, g *ssa.Global) bool {
 	name := g.Pkg.Pkg.Path() + "." + g.Name()
 	switch name {
+	case "github.com/IBM/sarama.DefaultVersion":
+		// V2_1_0_0 (sarama v1.43.3); sarama's init is not interpreted
+		var v Value = Struct{Array{mkInt(64, 2), mkInt(64, 1), mkInt(64, 0), mkInt(64, 0)}}
+		w.globals[g] = &v
+		return true
 	case "net.v4InV6Prefix":
 		var v Value = bytesVal([]byte{0, 0, 0, 0, 0, 0, 0, 0, 0, 0, 0xff, 0xff})
 		w.globals[g] = &v
